@@ -74,6 +74,14 @@ Theorem C19_layers : forall sh, perm_oracle sh -> forall g, wf g ->
 Proof. exact s_layers. Qed.
 Print Assumptions C19_layers.
 
+(** The layers do not depend on the iteration order (hence Nlayer is the
+    number of nodes on a longest path). *)
+Theorem C19_layers_unique : forall sh1 sh2 g, perm_oracle sh1 -> perm_oracle sh2 -> wf g ->
+  forall l1 l2, check_dag sh1 g = VOk l1 -> check_dag sh2 g = VOk l2 ->
+  length l1 = length l2 /\ forall i v, In v (nth i l1 []) <-> In v (nth i l2 []).
+Proof. exact s_layers_unique. Qed.
+Print Assumptions C19_layers_unique.
+
 (** AllIns / AllOuts are exactly reachability by a path of length >= 1. *)
 Theorem C19_closure_is_reachability : forall sh, perm_oracle sh -> forall g, wf g ->
   forall m, new_map sh g = MOk m ->
